@@ -25,13 +25,16 @@ GRAPH_SETS = ('_descendants', '_antecedents', '_constant_set')
 
 
 def rule_ctx(ctx):
-    ctx.rule('C20.ctx', 'from `main._current_synthdef = <def>` every exit of _build/_read_synthdef2 for Exception-class errors passes '
+    ctx.rule('C20.ctx', 'from `main._current_synthdef = <def>` every exit of _build/_read_synthdef2 - normal, any Exception, or an interruption such as KeyboardInterrupt - passes '
                         'through `main._current_synthdef = None`, all inside `with main._def_build_lock`')
     for fq in ('sc3.synth.synthdef:SynthDef._build', 'sc3.synth.synthdesc:SynthDesc._read_synthdef2'):
         f = ctx.repo.func(fq)
 
         def mr(s):
-            return bool(U.calls(s)) or any(isinstance(n, ast.Subscript) for n in ast.walk(s))
+            # '*' = any Exception; KeyboardInterrupt stands for the interruptions that are not Exception subclasses
+            if bool(U.calls(s)) or any(isinstance(n, ast.Subscript) for n in ast.walk(s)):
+                return ['*', 'KeyboardInterrupt']
+            return False
         n = bad = 0
         for ev, out in enumerate_paths(f.node, may_raise=mr, unroll=1, repo=ctx.repo, max_paths=200000):
             seti = None
@@ -70,8 +73,6 @@ def rule_ctx(ctx):
     hs = [norm(h.type) if h.type else 'bare' for h in t.handlers]
     ok = (hs in (['Exception'], ['BaseException'], ['bare']) and isinstance(t.handlers[0].body[-1], ast.Raise)) or bool(t.finalbody)
     ctx.ob('C20.ctx', f'{b.fq}:handler', ok, f'handlers {hs}: errors must be re-raised after the reset', t, b.module)
-    if hs == ['Exception'] and not t.finalbody:
-        ctx.note('SynthDef._build resets the context for Exception subclasses only: a KeyboardInterrupt during a build leaves it set (outside the property\'s "errors"; noted)')
 
 
 def rule_own(ctx):
@@ -142,6 +143,12 @@ def rule_own(ctx):
         recv = 'self' if fn == '__init__' else 'obj'
         ok = all(f'{recv}.{a} = []' in src for a in ('_available', '_width_first_ugens'))
         ctx.ob('C20.own', f'{f.fq}:fresh-topo-state', ok, 'each definition object gets its own _available and _width_first_ugens lists', f.node, f.module)
+    # what a definition hands out must not be a handle on its own cache
+    ab = ctx.repo.func('sc3.synth.synthdef:SynthDef.as_bytes')
+    src = full(ab.node)
+    ctx.ob('C20.own', f'{ab.fq}:immutable', 'self._bytes = stream.getvalue()' in src and 'getbuffer' not in src,
+           'as_bytes caches and returns an immutable bytes value (BytesIO.getbuffer() is a writable view of the cache: writing into it '
+           'changes every later result and send)', ab.node, ab.module)
     # reads of the context elsewhere only inside functions that run during a build
     ib = ctx.repo.func('sc3.synth.synthdef:SynthDef._init_build')
     src = full(ib.node)
@@ -253,18 +260,22 @@ def run(ctx):
 
 
 MUTANTS = [
+    dict(rule='C20.own', name='(fix reverted) as_bytes hands out a writable view of its cache', file='sc3/synth/synthdef.py',
+         old="            self._bytes = stream.getvalue()", new="            self._bytes = stream.getbuffer()"),
+    dict(rule='C20.ctx', name='(fix reverted) context reset only for Exception subclasses', file='sc3/synth/synthdef.py',
+         old="                self._func = func\n            finally:\n                _libsc3.main._current_synthdef = None", new="                self._func = func\n                _libsc3.main._current_synthdef = None\n            except Exception:\n                _libsc3.main._current_synthdef = None\n                raise"),
     dict(rule='C20.own', name='topo-sort lists become class-level defaults shared by all definitions (seed C20-c)', file='sc3/synth/synthdef.py',
          edits=[('sc3/synth/synthdef.py', "        # topo sort\n        self._available = []\n        self._width_first_ugens = []\n        self._rewrite_in_progress = False\n", ""),
                 ('sc3/synth/synthdef.py', "        obj._available = []\n        obj._width_first_ugens = []\n        obj._rewrite_in_progress = False\n", ""),
                 ('sc3/synth/synthdef.py', "    def __init__(self, name, func, rates=None, prepend=None,", "    _available = []\n    _width_first_ugens = []\n    _rewrite_in_progress = False\n\n    def __init__(self, name, func, rates=None, prepend=None,")]),
-    dict(rule='C20.ctx', name='reset dropped in the handler', file='sc3/synth/synthdef.py',
-         old="            except Exception:\n                _libsc3.main._current_synthdef = None\n                raise", new="            except Exception:\n                raise"),
+    dict(rule='C20.ctx', name='reset dropped from the finally block', file='sc3/synth/synthdef.py',
+         old="                self._func = func\n            finally:\n                _libsc3.main._current_synthdef = None", new="                self._func = func\n                _libsc3.main._current_synthdef = None\n            finally:\n                pass"),
     dict(rule='C20.ctx', name='context set before taking the lock', file='sc3/synth/synthdef.py',
          old="        with _libsc3.main._def_build_lock:\n            try:\n                _libsc3.main._current_synthdef = self\n", new="        _libsc3.main._current_synthdef = self\n        with _libsc3.main._def_build_lock:\n            try:\n"),
     dict(rule='C20.ctx', name='reset moved out of the finally in the description reader', file='sc3/synth/synthdesc.py',
          old="            finally:\n                _libsc3.main._current_synthdef = None", new="            finally:\n                pass\n            _libsc3.main._current_synthdef = None"),
-    dict(rule='C20.ctx', name='success path forgets the reset', file='sc3/synth/synthdef.py',
-         old="                self._func = func\n                _libsc3.main._current_synthdef = None\n", new="                self._func = func\n"),
+    dict(rule='C20.ctx', name='reset only when the build failed', file='sc3/synth/synthdef.py',
+         old="                self._func = func\n            finally:\n                _libsc3.main._current_synthdef = None", new="                self._func = func\n            except BaseException:\n                _libsc3.main._current_synthdef = None\n                raise"),
     dict(rule='C20.own', name='a UGen method writes the context', file='sc3/synth/ugens/bufio.py',
          old="        max_local_bufs.increment()\n", new="        max_local_bufs.increment()\n        _libsc3.main._current_synthdef = _libsc3.main._current_synthdef\n"),
     dict(rule='C20.own', name='context cached on the class', file='sc3/synth/ugen.py',
